@@ -40,7 +40,8 @@ theorem releaseIdx_inv {gs : List Group} {U : Nat → List Nat} {e : AIdx} {rest
         omega
     have hfr0 : fracOf g.fracs e.index = 0 := by rw [hcnt] at hc; omega
     have hrest0 : heldBy rest e.group e.index = 0 := by rw [hcnt] at hc; omega
-    refine ⟨_, rfl, h.univ, ?_, ?_, ?_⟩
+    have hvals := vals_set (g' := { g with free := e.index :: g.free }) h.vals hg (fun j => h.vals _ g hg j)
+    refine ⟨_, rfl, h.univ, ?_, ?_, ?_, hvals⟩
     · intro gid' g' hg'
       by_cases hgid : gid' = e.group
       · subst hgid
@@ -95,7 +96,14 @@ theorem releaseIdx_inv {gs : List Group} {U : Nat → List Nat} {e : AIdx} {rest
     · simp only [hfull, if_true]
       have hrest0 : heldBy rest e.group e.index = 0 := by rw [hcnt] at hc; omega
       have hcU : FPU * (U e.group).count e.index = FPU := by rw [hcnt] at hc; omega
-      refine ⟨_, rfl, h.univ, ?_, ?_, ?_⟩
+      have hvals := vals_set (g' := { free := e.index :: g.free, fracs := ferase g.fracs e.index }) h.vals hg
+        (fun j => by
+          show fracOf (ferase g.fracs e.index) j < FPU
+          rw [fracOf_ferase]
+          split
+          · exact FPU_pos
+          · exact h.vals _ g hg j)
+      refine ⟨_, rfl, h.univ, ?_, ?_, ?_, hvals⟩
       · intro gid' g' hg'
         by_cases hgid : gid' = e.group
         · subst hgid
@@ -142,7 +150,14 @@ theorem releaseIdx_inv {gs : List Group} {U : Nat → List Nat} {e : AIdx} {rest
           omega
         simp [hne, hs']
     · simp only [hfull, if_false]
-      refine ⟨_, rfl, h.univ, ?_, ?_, ?_⟩
+      have hvals := vals_set (g' := { g with fracs := fset g.fracs e.index (f + e.fractions) }) h.vals hg
+        (fun j => by
+          show fracOf (fset g.fracs e.index (f + e.fractions)) j < FPU
+          rw [fracOf_fset]
+          split
+          · omega
+          · exact h.vals _ g hg j)
+      refine ⟨_, rfl, h.univ, ?_, ?_, ?_, hvals⟩
       · intro gid' g' hg'
         by_cases hgid : gid' = e.group
         · subst hgid
